@@ -23,6 +23,7 @@ use serde::{Deserialize, Serialize};
 
 pub mod ctx;
 pub mod poly;
+pub mod fri;
 pub mod gates;
 pub mod smt;
 
